@@ -169,6 +169,32 @@ def wrap_step():
     return h
 
 
+def derive_two(kind2):
+    """DeriveKey naming two objects (the second supplies the derivation data when the request carries
+    none): *every* object used must carry the Derive Key bit."""
+    def h(rel1: bool, rel2: bool, others: bool, has_data: bool) -> bool:
+        """
+        post: _
+        """
+        from kmip.core import attributes as cattrs
+        a = mk_obj("SymmetricKey", uid=1, owner="alice", state=ST.ACTIVE, masks=masks_of(M.DERIVE_KEY, rel1, others))
+        b = mk_obj(kind2, uid=2, owner="alice", state=ST.ACTIVE, masks=masks_of(M.DERIVE_KEY, rel2, others))
+        crypto = P.RecordingCrypto()
+        e, s = mk_engine([a, b], identity=("alice", None), crypto=crypto)
+        dp = cattrs.DerivationParameters(cryptographic_parameters=P.cparams(),
+                                         derivation_data=b"\xf0\xf1" if has_data else None, salt=b"\x00\x01")
+        ok = True
+        try:
+            e._process_operation(OP.DERIVE_KEY, P.mk("DERIVE_KEY", None, uids=["1", "2"], dparams=dp))
+        except Exception:
+            ok = False
+        reach()
+        if (crypto.calls or ok) and not (rel1 and rel2):
+            return False
+        return True
+    return h
+
+
 STATE_OPS = ["ACTIVATE", "REVOKE", "DESTROY"]
 CRYPTO_OPS = ["ENCRYPT", "DECRYPT", "SIGN", "SIGNATURE_VERIFY", "MAC", "DERIVE_KEY"]
 FRAME_OPS = ["GET", "GET_ATTRIBUTES", "GET_ATTRIBUTE_LIST", "DELETE_ATTRIBUTE", "MODIFY_ATTRIBUTE", "SET_ATTRIBUTE"]
@@ -191,6 +217,10 @@ def conditions(tier):
             out.append(Cond("gate-%s-%s" % (op, k), "step", dict(op=op, kind=k),
                             bounds="stored %s in any of the 4 storable states; matching mask bit and the other "
                                    "bits symbolic; %s" % (k, op), timeout=400, part="gate"))
+    for k2 in ("SecretData", "SymmetricKey"):
+        out.append(Cond("gate-DERIVE_KEY-two-objects-%s" % k2, "derive_two", dict(kind2=k2),
+                        bounds="DeriveKey naming a symmetric key and a %s; Derive Key bit of each and the other bits symbolic; "
+                               "derivation data in the request or taken from the second object" % k2, timeout=300, part="gate"))
     out.append(Cond("gate-GET-wrappingkey", "wrap_step", {},
                     bounds="wrapping key of kind SymmetricKey/PublicKey/SecretData in any state, WRAP_KEY bit and other "
                            "bits symbolic", timeout=400, part="gate"))
